@@ -115,7 +115,7 @@ CHECKS["C01"] = {
     "units": [
         {"pkg": _SS, "run": "^TestVerif_C01_", Q: {"timeout": 600}, T: {"timeout": 3400, "shards": 12}},
     ],
-    "mandatory_labels": {"all": ["kind/account", "kind/contact", "kind/multimember", "payload>=4KiB", "payload-empty", "mutants-decrypting-to-signature-check", "concurrent-seal/overlapping"]},
+    "mandatory_labels": {"all": ["kind/account", "kind/contact", "kind/multimember", "payload>=4KiB", "payload-empty", "mutants-decrypting-to-signature-check", "concurrent-seal/overlapping", "write-fault/fired"]},
 }
 
 CHECKS["C02"] = {
@@ -221,7 +221,7 @@ CHECKS["C05"] = {
     ],
     "mandatory_labels": {"all": ["crypto/kind=account", "crypto/kind=contact", "crypto/kind=multimember", "crypto/counter>=128", "crypto/messages-before-announcement",
                                  "distribution/multimember", "distribution/activated-before-seeing-anyone", "distribution/second-device-after-secrets",
-                                 "concurrent/dfs-schedules", "concurrent/first-use-of-the-chain-key", "distribution/entries-received-before-activation"]},
+                                 "concurrent/dfs-schedules", "concurrent/first-use-of-the-chain-key", "distribution/entries-received-before-activation", "write-fault/fired"]},
 }
 
 CHECKS["C04"] = {
